@@ -65,7 +65,7 @@ def confirm(patch, demo):
         drop(d)
 
 
-def cmd_import(src):
+def cmd_import(src, tag=''):
     os.makedirs(VERIF + '/seeded', exist_ok=True)
     for pdir in sorted(os.listdir(src)):
         full = os.path.join(src, pdir)
@@ -77,7 +77,7 @@ def cmd_import(src):
             meta = os.path.join(full, 'seed_meta_%d.json' % k)
             if not (os.path.exists(patch) and os.path.exists(demo)):
                 continue
-            sid = '%s-%d' % (pdir, k)
+            sid = '%s-%s%d' % (pdir, tag, k)
             dest = os.path.join(VERIF, 'seeded', sid)
             if os.path.exists(dest):
                 continue
@@ -148,7 +148,7 @@ def cmd_run(ids):
 
 if __name__ == '__main__':
     if len(sys.argv) >= 3 and sys.argv[1] == 'import':
-        cmd_import(sys.argv[2])
+        cmd_import(sys.argv[2], sys.argv[3] if len(sys.argv) > 3 else '')
     elif len(sys.argv) >= 2 and sys.argv[1] == 'run':
         cmd_run(sys.argv[2:])
     else:
